@@ -126,6 +126,18 @@ def _worker(args):
             out["disagreements"].append({"groups": ["env"], "where": "env.step #%d" % k,
                                          "replay": {"pre_env": rec[1][:3000], "action": rec[2], "impl": rec[3][-1500:],
                                                     "model": m[-1500:]}})
+    # 1a. "reports success" (C05): no state.step of an episode driven by offered actions returns success=False
+    #     (theorem C05_step_never_reports_failure_flex for unordered pre-/post-buffers; a violation for any instance)
+    if prop == "C05":
+        nfail = 0
+        for k, r in enumerate(tracer.records):
+            if r.out.startswith("(fail"):
+                nfail += 1
+                if nfail <= 5:
+                    out["violations"].append({"kind": "outcome:step_reported_failure", "detail": "state.step returned "
+                                              "success=False on transitions the environment itself offered or created",
+                                              "replay": replay_of(k, impl=r.out[:2000])})
+        out["steps_checked_for_reported_failure"] = len(tracer.records)
     # 1b. purity of state.step (C20): the input state object of every call equals its deep copy afterwards
     for mu in tracer.input_mutations[:20]:
         out["violations"].append({"kind": "purity:step_input_mutated", "detail": "state.step altered the state object it was "
@@ -376,6 +388,7 @@ def sm_check(ctx, n_quick=160, n_thorough=6000, custom_p=0.15, extra=None, worke
         tot["env_records"] += o.get("env_records", 0)
         tot["flex_episodes"] += o.get("flex_episodes", 0)
         tot["step_inputs_snapshotted"] += o.get("step_inputs_snapshotted", 0)
+        tot["steps_checked_for_reported_failure"] += o.get("steps_checked_for_reported_failure", 0)
         tot["fresh_initial_states"] += o.get("fresh_initial_states", 0)
         ends.update(o["ends"])
         feats.update(o["features"])
@@ -406,6 +419,8 @@ def sm_check(ctx, n_quick=160, n_thorough=6000, custom_p=0.15, extra=None, worke
         "episode_end_histogram": dict(ends), "input_distribution": dict(feats),
         "transition_kinds_seen": dict(kinds),
     })
+    if prop == "C05":
+        ctx.coverage["steps_checked_for_success_false"] = tot["steps_checked_for_reported_failure"]
     if prop == "C20":
         ctx.coverage["step_inputs_compared_with_their_deep_copy"] = tot["step_inputs_snapshotted"]
     if prop in ("C01", "C04", "C03", "C02", "C07"):
